@@ -293,4 +293,14 @@ theorem preStart_reachable {cap : Nat} (vs : List α) : ∀ p ∈ preStart cap v
 example : (preStart (α := Nat) 2 [7, 8]).map (fun p => (p.cancelled, p.inp.buf, p.sent)) = [(true, [7, 8], [7, 8])] := by
   decide
 
+/-- in every reachable state — cancelled, closed, racing or not — the receiver has no value that was not sent, the k-th
+value received is the k-th value sent, and it has never received more than was sent -/
+theorem delivered_is_sent_in_order {cap : Nat} {p : Net α} (h : Reachable cap p) :
+    (∀ x ∈ p.delivered, x ∈ p.sent) ∧ p.delivered.length ≤ p.sent.length ∧
+    (∀ k (hk : k < p.delivered.length), p.sent[k]? = some p.delivered[k]) := by
+  have hp := delivered_prefix h
+  refine ⟨fun x hx => hp.subset hx, hp.length_le, fun k hk => ?_⟩
+  obtain ⟨t, ht⟩ := hp
+  rw [← ht, List.getElem?_append_left hk, List.getElem?_eq_getElem hk]
+
 end Golem.Props.C08
